@@ -208,3 +208,23 @@ Definition wit_log : list checkpoint :=
 
 Lemma wit_log_last : last_not_skipped [97] wit_log /\ last_not_skipped [98] wit_log.
 Proof. split; vm_compute; reflexivity. Qed.
+
+(* ---- repeating a checkpoint with no intervening change records nothing ---- *)
+Theorem repeat_records_nothing f :
+  cf_from_checkpoint f = true -> cf_equal f = true -> decide_entry f = NoEntry.
+Proof.
+  intros H1 H2. unfold decide_entry. rewrite H1, H2.
+  destruct (cf_pre_commit f), (cf_human f), (cf_prior_ai f), (cf_has_initial f); reflexivity.
+Qed.
+
+(* a human checkpoint of a file no AI ever touched can only add an entry the reader skips *)
+Theorem human_only_entry_is_inert f file computed initial cps1 cps2 k :
+  cf_human f = true -> cf_prior_ai f = false -> cf_has_initial f = false ->
+  va_from_log initial (cps1 ++ mkCheckpoint k (entry_of_decision (decide_entry f) file computed) :: cps2)
+  = va_from_log initial (cps1 ++ cps2).
+Proof.
+  intros H1 H2 H3. unfold decide_entry. rewrite H1, H2, H3. cbn [andb negb].
+  unfold va_from_log, va_from_log_gen.
+  destruct (cf_pre_commit f); [|destruct (cf_equal f)]; cbn [entry_of_decision]; rewrite !fold_left_app;
+    reflexivity.
+Qed.
